@@ -118,9 +118,14 @@ fn stark_malformed(e: &mut Emitter, r: &mut Rng, thorough: bool) {
     use std::sync::Arc;
     use crate::stark_dsl::*;
     use plonky2::field::types::Field;
-    let n_inst = if thorough { 6 } else { 2 };
+    let n_inst = if thorough { 6 } else { 3 };
     for k in 0..n_inst {
-        let (air, rows, pis) = if k % 2 == 0 {
+        let (air, rows, pis) = if k % 3 == 2 || (!thorough && k == 1 && r.coin()) {
+            // constraint degree 0: no quotient polynomials at all
+            let n = 1usize << r.range(2, 5);
+            let rows: Vec<Vec<F>> = (0..n).map(|_| vec![F::from_canonical_u64(r.below(P)), F::from_canonical_u64(r.below(P))]).collect();
+            (Arc::new(unconstrained_air()), rows, vec![])
+        } else if k % 3 == 0 {
             let (rows, pis) = fibonacci_trace(1 << r.range(2, 6), F::from_canonical_u64(r.below(P)), F::from_canonical_u64(r.below(P)));
             (Arc::new(fibonacci_air()), rows, pis)
         } else {
